@@ -38,7 +38,7 @@ ASSUMPTIONS = [
     "scheduling slack of 0.1 virtual seconds in upper bounds; lower bounds are exact (1e-6)",
     "n = 0 (no failure since reset) is not constrained by the statement beyond being <= the n = 1 value",
 ]
-MUST_FIRE = {"quick": ["T1_checked", "T4_checked", "strategy_cmp"], "thorough": ["T1_checked", "T4_checked", "strategy_cmp", "T1_capped"]}
+MUST_FIRE = {"quick": ["T1_checked", "T4_checked", "strategy_cmp", "daylight_saving_switch_between_two_losses"], "thorough": ["T1_checked", "T4_checked", "strategy_cmp", "T1_capped"]}
 
 EPS = 1e-6
 SLACK = 0.1
@@ -66,8 +66,14 @@ def gen(rng, tier, index):
             script.append({"o": "ok", "d": rng.choice(DGRID), "life": life})
         else:
             script.append({"o": "fail", "d": rng.choice(DGRID), "exc": rng.choice(["OSError", "OSError", "TimeoutError", "RuntimeError", "ValueError"]), "noargs": rng.random() < 0.25})
+    dst = None
+    if rng.random() < 0.15:
+        # a daylight-saving switch during the run: naive local time (datetime.now()) jumps by an hour, UTC does not
+        est = sum(float(st.get("d") or 0) + float(st.get("life") or 0) for st in script)
+        dst = {"at": round(rng.uniform(0.0, est + 6.0), 3), "sec": rng.choice([3600.0, -3600.0])}
     yield {
         "kind": "manager",
+        "dst": dst,
         "script": script,
         "cycle": False,
         "tail": {"o": "fail", "d": 0} if long_outage else rng.choice([{"o": "ok", "d": 0, "life": None}, {"o": "fail", "d": 0}]),
@@ -193,6 +199,10 @@ def execute(sc):
     losses = sum(1 for e in ev if e[0] == "loss")
     if rig.clock.reads:
         bump("wall_clock_reads_via_shim")
+    if sc.get("dst"):
+        bump("daylight_saving_switch")
+        if any(a[0] == "loss" and b[0] == "loss" and a[1] < sc["dst"]["at"] <= b[1] for a, b in zip([e for e in ev if e[0] == "loss"], [e for e in ev if e[0] == "loss"][1:])):
+            bump("daylight_saving_switch_between_two_losses")
     return {
         "violations": viol,
         "digest": prng.digest([ev, [v["sig"] for v in viol]]),
@@ -202,7 +212,7 @@ def execute(sc):
         "probes": probes,
         "states": states,
         "sim_s": rig.end_time,
-        "summary": {"scenario": {k: sc[k] for k in ("script", "tail", "cfg")}, "attempt_times": [[e[0], e[1]] for e in ev if e[0].startswith("attempt") or e[0] == "loss"][:20]},
+        "summary": {"scenario": {k: sc.get(k) for k in ("script", "tail", "cfg", "dst")}, "attempt_times": [[e[0], e[1]] for e in ev if e[0].startswith("attempt") or e[0] == "loss"][:20]},
     }
 
 
@@ -226,6 +236,8 @@ def candidates(sc):
             if m < sc["max_delay"]:
                 yield dict(sc, max_delay=m)
         return
+    if sc.get("dst"):
+        yield dict(copy.deepcopy(sc), dst=None)
     for red in shrink.list_reductions(sc["script"]):
         yield dict(copy.deepcopy(sc), script=red, max_attempts=len(red) + 3)
     for i, spec in enumerate(sc["script"]):
